@@ -436,14 +436,16 @@ pub const TEMPLATES: &[Template] = &[
     name: "rename-let",
     langs: JS,
     severity: "warning",
-    message: "rename $A to $NEW ($UP)",
+    message: "rename $A to $NEW ($UP, $NEW_LOWER)",
     rule: "  pattern: let $A = $B\n",
     transform: &[
       ("UP", "    convert:\n      source: $A\n      toCase: upperCase\n"),
       ("NEW", "    replace:\n      source: $UP\n      replace: \"^\"\n      by: K_\n"),
       ("SHORT", "    substring:\n      source: $NEW\n      startChar: 0\n      endChar: 4\n"),
+      // a name that has another transform's name as a prefix
+      ("NEW_LOWER", "    convert:\n      source: $NEW\n      toCase: lowerCase\n"),
     ],
-    fix: "const $NEW = $B /* $SHORT */",
+    fix: "const $NEW = $B /* $SHORT $NEW_LOWER */",
     valid: &["const a = 1"],
     invalid: &["let abc = 1", "let 变量 = foo(1, 2)"],
     ..T0
